@@ -184,6 +184,32 @@ def check_tables(ctx, tables):
     got = next((g for hb, g, _ in wrong_char if hb == hex(b)), oracle.standard_char(b))
     ctx.check(got == oracle.standard_char(b), "TAB-standard", f"SCC_STANDARD_CHARACTERS_MAPPING[{hex(b)}]", m.rel,
               f"{hex(b)} -> {got!r}", f"standard character {hex(b)} decodes to {got!r}; CEA-608 gives {oracle.standard_char(b)!r}")
+  # ... and the whole function on sample words (a path that never reaches the comprehension is not seen by the per-byte evaluation)
+  from ..consteval import NotConst as _NC2, Raised as _R2
+  from ..rules.minieval import MiniEval as _ME
+  wcls = ix.cls("ttconv.scc.word:SccWord")
+  pairs = [(b1, 0x00) for b1 in range(0x20, 0x80)] + [(b1, 0x2A) for b1 in range(0x20, 0x80)] + [(0x41, b2) for b2 in range(0x20, 0x80)] + [(0x00, 0x00), (0x00, 0x7E), (0x7F, 0x7F)]
+  bad_words, und_w = [], None
+  for b1, b2 in pairs:
+    rec = {"__record__": "SccWord", "__class__": wcls, "byte_1": b1, "byte_2": b2, "value": b1 * 256 + b2}
+    try:
+      got = _ME(ix).call(to_text, [rec])
+    except _R2:
+      bad_words.append(f"{b1:02x}{b2:02x}: raises")
+      continue
+    except _NC2 as ex_:
+      und_w = str(ex_)
+      break
+    want = "".join(oracle.standard_char(b) if b >= 0x20 else chr(b) for b in (b1, b2) if b != 0)
+    if got != want:
+      bad_words.append(f"{b1:02x}{b2:02x}: {got!a} instead of {want!a}")
+  if und_w is not None:
+    ctx.undecide("TAB-standard", f"SccWord.to_text: not in the interpreted subset ({und_w})")
+  else:
+    ctx.check(not bad_words, "TAB-standard", "SccWord.to_text|sample words decode to the standard characters of their non-null bytes", ctx.where(tm, to_text.node),
+              f"interpreted on {len(pairs)} words (every byte as first byte with a null or a non-ASCII second byte, every byte as second byte)",
+              "SccWord.to_text, interpreted on sample words: " + "; ".join(bad_words[:5]) + (f" (+{len(bad_words) - 5} more)" if len(bad_words) > 5 else "") +
+              " - each non-null byte must decode through the standard character table (2Ah is á, 7Eh is ñ, 7Fh the solid block), also when the other byte is the null filler")
   # row mapping and colour mapping
   pm = ix.mod(f"{CODES}.preambles_address_codes")
   rowmap = ce.ev(pm, ix.toplevel[pm.name]["_ROW_MAPPING"][2])
